@@ -252,3 +252,35 @@ func H_self_gosemantics() {
 	vObserve("floats", strconv.Itoa(int(f))+" "+strconv.Itoa(int(-f))+" "+strconv.FormatFloat(float64(float32(0.1)), 'g', -1, 64)+" "+strconv.FormatBool(f != f))
 	vDone()
 }
+
+// H_sym_bytes: byte-level handling of symbolic text: copying a string byte by
+// byte (index + WriteByte, []byte round trip, slicing at every byte offset and
+// re-joining) gives back the same string.
+func H_sym_bytes() {
+	n := 1 + vChoice("n", 2)
+	rs := make([]rune, n)
+	for i := range rs {
+		rs[i] = vRune("c")
+		vAssume(vOr(vAnd(rs[i] >= 0, rs[i] < 0xD800), vAnd(rs[i] > 0xDFFF, rs[i] <= 0x10FFFF)))
+	}
+	s := string(rs)
+	var b strings.Builder
+	for i := 0; i < len(s); i++ {
+		b.WriteByte(s[i])
+	}
+	vAssert(b.String() == s, "bytes:writebyte-copy")
+	vAssert(string([]byte(s)) == s, "bytes:slice-roundtrip")
+	for i := 0; i <= len(s); i++ {
+		vAssert(s[:i]+s[i:] == s, "bytes:cut-and-join")
+	}
+	var c strings.Builder
+	for i := 0; i < len(s); i++ {
+		if i%2 == 0 {
+			c.WriteByte(s[i])
+		} else {
+			c.WriteString(s[i : i+1])
+		}
+	}
+	vAssert(c.String() == s, "bytes:mixed-copy")
+	vDone()
+}
